@@ -187,6 +187,44 @@ theorem loop1 {σ β : Type} (dep prev : σ → PyVal) (f : PyVal → σ → M (
       simp only [ok_bind]
       exact ih d' k' s' h2 h3 hR
 
+/-- x8: the first loop when an ill-formed token makes the body *leave the loop* (`return False` inside a helper: the state
+then satisfies `bad`) instead of raising; the state is related to the model's `(depth, previous)` by any `Rel` -/
+theorem loop1r {σ β : Type} (Rel : σ → Nat → Kind → Prop) (bad : σ → Prop) (f : PyVal → σ → M (ForInStep σ)) (k : σ → M β)
+    (R Rbad : M β) (hbad : ∀ s', bad s' → k s' = Rbad)
+    (hf : ∀ (t : Str) (s : σ) (d : Nat) (kd : Kind), Rel s d kd →
+      match step t d kd with
+      | none => ∃ s', f (.str t) s = .ok (.done s') ∧ bad s'
+      | some (d', k') => ∃ s', f (.str t) s = .ok (.yield s') ∧ Rel s' d' k') :
+    ∀ (toks : List Str) (d : Nat) (kd : Kind) (init : σ), Rel init d kd →
+    (match structEnd toks d kd with
+      | none => R = Rbad
+      | some (d', k') => ∀ s', Rel s' d' k' → k s' = R) →
+    (forIn (toks.map PyVal.str) init f >>= k) = R := by
+  intro toks
+  induction toks with
+  | nil =>
+    intro d kd init hrel hR
+    simp only [structEnd] at hR
+    simpa using hR init hrel
+  | cons t ts ih =>
+    intro d kd init hrel hR
+    have h := hf t init d kd hrel
+    simp only [structEnd] at hR
+    simp only [List.map_cons, List.forIn_cons]
+    cases hs : step t d kd with
+    | none =>
+      simp only [hs] at h hR
+      obtain ⟨s', h1, h2⟩ := h
+      rw [h1, hR]
+      simpa using hbad s' h2
+    | some r =>
+      obtain ⟨d', k'⟩ := r
+      simp only [hs] at h hR
+      obtain ⟨s', h1, h2⟩ := h
+      rw [h1]
+      simp only [ok_bind]
+      exact ih d' k' s' h2 hR
+
 /-! ### second loop -/
 
 /-- one iteration of the second loop: the token appended to `normalized_tokens`; `none` = `raise` -/
@@ -325,6 +363,33 @@ theorem isGrammar_eq (t : Str) :
       isGrammar t := by
   simp [isGrammar, kOr, kAnd, kWith, kLP, kRP, Bool.or_assoc]
 
+/-- x8: the same test against a *named* constant set (the translator lists its members sorted, whatever the source order) -/
+theorem isGrammar_eq' (t : Str) :
+    (t == [40] || (t == [41] || (t == [97, 110, 100] || (t == [111, 114] || t == [119, 105, 116, 104])))) =
+      isGrammar t := by
+  simp only [isGrammar, kOr, kAnd, kWith, kLP, kRP]
+  cases (t == [40]) <;> cases (t == [41]) <;> cases (t == [97, 110, 100]) <;> cases (t == [111, 114]) <;>
+    cases (t == [119, 105, 116, 104]) <;> rfl
+
+/-- x8: membership in the set of the five grammar words, in whatever order the display lists them: any list of values with
+the same members -/
+theorem any_grammar (l : List PyVal) (t : Str)
+    (h : ∀ x, x ∈ l ↔ x ∈ [PyVal.str kOr, .str kAnd, .str kWith, .str kLP, .str kRP]) :
+    l.any (PyVal.eq (.str t)) = isGrammar t := by
+  have heq : ∀ y : PyVal, PyVal.eq (.str t) y = true ↔ y = .str t := by
+    intro y
+    cases y with
+    | str b => simp only [eq_str, beq_iff_eq, PyVal.str.injEq]; exact eq_comm
+    | _ => simp [PyVal.eq]
+  have e : ∀ (l : List PyVal), l.any (PyVal.eq (.str t)) = true ↔ PyVal.str t ∈ l := by
+    intro l
+    simp only [List.any_eq_true, heq]
+    constructor
+    · rintro ⟨x, hx, rfl⟩; exact hx
+    · intro hx; exact ⟨_, hx, rfl⟩
+  rw [Bool.eq_iff_iff, e, h]
+  simp [isGrammar, kOr, kAnd, kWith, kLP, kRP, or_assoc]
+
 theorem upper_grammar {t : Str} (h : isGrammar t = true) : t.map upperAscii = upperOp t := by
   simp only [isGrammar, Bool.or_eq_true, beq_iff_eq] at h
   rcases h with (((h | h) | h) | h) | h <;> subst h <;> decide
@@ -366,6 +431,52 @@ local macro "word_split" t:term:max o:term:max "[" ts:Lean.Parser.Tactic.simpLem
         · cases hf : Lic.findId Gen.SpdxTables.licenses (List.dropLast $t) <;> word_simp [hp, hs, hf, $ts,*]
         · cases hr : Lic.refAllowed (List.drop 11 $o) <;> word_simp [hp, hs, hr, $ts,*]))
 
+set_option hygiene false in
+/-- the second loop and the code after it (goal: `forIn (pairs) init body >>= tail = match normGo … with …`); the list of
+normalised tokens is the last mutable local of the loop state -/
+local macro "second_loop" : tactic => `(tactic| (
+    refine loop2 (fun s => s.2.2.2) _ _ _ ?hf2 (orig.zip toks) [] _ rfl ?hR2
+    case hR2 =>
+      simp only [List.getLast?_nil, List.nil_append]
+      cases hN : Lic.normGo (orig.zip toks) none with
+      | none => simp
+      | some r =>
+        simp only
+        intro s' hs'
+        obtain ⟨a, b, c, n⟩ := s'
+        simp only at hs'
+        subst hs'
+        simp only [s_sp, s_lpsp, s_sprp, str_join_list, ok_bind, str_replace_two, join_sp, Option.map_some, Lic.tighten]
+    case hf2 =>
+      intro o t s acc hn
+      obtain ⟨a, b, c, n⟩ := s
+      simp only at hn
+      subst hn
+      -- the test `token in {…five grammar words…}`, whatever kind of display and whatever order: `any_grammar`
+      simp only [pairVal, unpack2_tuple, ok_bind, contains_set_str, contains_tuple_str, contains_list_str,
+        s_or, s_and, s_with, s_WITH, s_plus, s_ref, s_reflower, s_empty, s_lp, s_rp]
+      rw [any_grammar _ t (by
+        intro x
+        simp only [List.mem_cons, List.mem_nil_iff, or_false, Lic.kOr, Lic.kAnd, Lic.kWith, Lic.kLP, Lic.kRP] <;>
+          (constructor <;> (intro hx; rcases hx with hx | hx | hx | hx | hx <;> simp [hx])))]
+      simp only [List.any_cons, List.any_nil, eq_str, Bool.or_false, normStep]
+      by_cases hg : Lic.isGrammar t = true
+      · simp only [hg, if_true, str_upper_str, list_append_list, ok_bind, upper_grammar hg]
+        exact ⟨_, rfl, by simp⟩
+      have hg' : Lic.isGrammar t = false := by simpa using hg
+      simp only [hg', Bool.false_eq_true, if_false]
+      rcases eq_nil_or_snoc acc with rfl | ⟨l, w, rfl⟩
+      · simp only [List.map_nil, truthy_list, List.isEmpty_nil, Bool.not_true, Bool.false_eq_true, if_false, ok_bind,
+          List.getLast?_nil]
+        word_split t o []
+      · simp only [getitem_last, truthy_list, List.isEmpty_map, snoc_isEmpty, Bool.and_false,
+          Bool.not_false, if_true, ok_bind, PyRt.eq, eq_str, truthy_bool, List.getLast?_append, List.getLast?_singleton,
+          Option.some_or]
+        by_cases hw : w = [87, 73, 84, 72]
+        · subst hw
+          cases hf : Lic.findId Gen.SpdxTables.exceptions t <;> word_simp [hf]
+        · word_split t o [hw]))
+
 theorem canonicalize_license_expression_eq_model (raw : Str) :
     Gen.PySrc.canonicalize_license_expression (.str raw) =
       match Lic.canon raw with
@@ -380,87 +491,107 @@ theorem canonicalize_license_expression_eq_model (raw : Str) :
     simp only [hpad, Lic.canon, hr, Lic.canonT]
     generalize Lic.split (Lic.pad raw) = orig
     generalize Lic.split (lowerStr (Lic.pad raw)) = toks
-    refine loop1 (fun s => s.2.1) (fun s => s.2.2) _ _ _ ?hf toks 0 .lp _ rfl rfl ?hR
-    case hf =>
-      intro t s d kd hd hp
-      obtain ⟨v, dp, pv⟩ := s
-      simp only at hd hp
-      subst hd hp
-      by_cases h1 : t = [40]
-      · subst h1
-        cases kd <;> step_simp []
-      by_cases h2 : t = [41]
-      · subst h2
-        by_cases hd : d > 0
-        · cases kd <;> step_simp [hd] <;> omega
-        · have hd0 : d = 0 := by omega
-          subst hd0
-          cases kd <;> step_simp []
-      by_cases h3 : t = [111, 114] ∨ t = [97, 110, 100]
-      · cases kd <;> step_simp [h1, h2, h3]
-      by_cases h4 : t = [119, 105, 116, 104]
-      · cases kd <;> step_simp [h1, h2, h3, h4]
-      · cases kd <;> step_simp [h1, h2, h3, h4]
-    case hR =>
-      simp only [structGo_eq_end]
-      cases hE : structEnd toks 0 .lp with
-      | none => simp
-      | some r =>
-        obtain ⟨d', k'⟩ := r
-        simp only
-        intro s' hd hp
-        obtain ⟨v, dp, pv⟩ := s'
+    first
+    | -- spelling A: the structure check is a loop of this function that raises on an ill-formed token
+      refine loop1 (fun s => s.2.1) (fun s => s.2.2) _ _ _ ?hf toks 0 .lp _ rfl rfl ?hR
+      case hf =>
+        intro t s d kd hd hp
+        obtain ⟨v, dp, pv⟩ := s
         simp only at hd hp
         subst hd hp
-        simp only [gt_int, ok_bind, pure_ok, truthy_bool, contains_set_str, contains_tuple_str, contains_list_str, List.any_cons, List.any_nil, eq_str,
-          s_license, s_exception, Bool.or_false, closes_eq, throw_err, err_bind]
-        by_cases hd : d' > 0
-        · have hd' : decide ((d' : Int) > 0) = true := by simp only [decide_eq_true_eq]; omega
-          simp only [hd', if_true, ok_bind, truthy_bool, hd, decide_true, Bool.true_or, Bool.not_true, Bool.not_false,
-            Bool.false_eq_true, if_false]
-        have hd' : decide ((d' : Int) > 0) = false := by simp only [decide_eq_false_iff_not]; omega
-        by_cases hk : k'.closes = true
-        case neg =>
-          have hk' : k'.closes = false := by simpa using hk
-          simp only [hd', if_true, ok_bind, truthy_bool, hd, hk', decide_false, Bool.false_or, Bool.not_true, Bool.not_false,
-            Bool.false_eq_true, if_false]
-        simp only [hd', if_true, ok_bind, truthy_bool, hd, hk, decide_false, Bool.false_or, Bool.not_true, Bool.not_false,
-            Bool.false_eq_true, if_false, zip2_strs, iterate_iter]
-        refine loop2 (fun s => s.2.2.2) _ _ _ ?hf2 (orig.zip toks) [] _ rfl ?hR2
-        case hR2 =>
-          simp only [List.getLast?_nil, List.nil_append]
-          cases hN : Lic.normGo (orig.zip toks) none with
+        by_cases h1 : t = [40]
+        · subst h1
+          cases kd <;> step_simp []
+        by_cases h2 : t = [41]
+        · subst h2
+          by_cases hd : d > 0
+          · cases kd <;> step_simp [hd] <;> omega
+          · have hd0 : d = 0 := by omega
+            subst hd0
+            cases kd <;> step_simp []
+        by_cases h3 : t = [111, 114] ∨ t = [97, 110, 100]
+        · cases kd <;> step_simp [h1, h2, h3]
+        by_cases h4 : t = [119, 105, 116, 104]
+        · cases kd <;> step_simp [h1, h2, h3, h4]
+        · cases kd <;> step_simp [h1, h2, h3, h4]
+      case hR =>
+        simp only [structGo_eq_end]
+        cases hE : structEnd toks 0 .lp with
+        | none => simp
+        | some r =>
+          obtain ⟨d', k'⟩ := r
+          simp only
+          intro s' hd hp
+          obtain ⟨v, dp, pv⟩ := s'
+          simp only at hd hp
+          subst hd hp
+          simp only [gt_int, ok_bind, pure_ok, truthy_bool, contains_set_str, contains_tuple_str, contains_list_str, List.any_cons, List.any_nil, eq_str,
+            s_license, s_exception, Bool.or_false, closes_eq, throw_err, err_bind]
+          by_cases hd : d' > 0
+          · have hd' : decide ((d' : Int) > 0) = true := by simp only [decide_eq_true_eq]; omega
+            simp only [hd', if_true, ok_bind, truthy_bool, hd, decide_true, Bool.true_or, Bool.not_true, Bool.not_false,
+              Bool.false_eq_true, if_false]
+          have hd' : decide ((d' : Int) > 0) = false := by simp only [decide_eq_false_iff_not]; omega
+          by_cases hk : k'.closes = true
+          case neg =>
+            have hk' : k'.closes = false := by simpa using hk
+            simp only [hd', if_true, ok_bind, truthy_bool, hd, hk', decide_false, Bool.false_or, Bool.not_true, Bool.not_false,
+              Bool.false_eq_true, if_false]
+          simp only [hd', if_true, ok_bind, truthy_bool, hd, hk, decide_false, Bool.false_or, Bool.not_true, Bool.not_false,
+              Bool.false_eq_true, if_false, zip2_strs, iterate_iter]
+          second_loop
+    | -- spelling B (x8): the structure check is a helper `_is_well_formed(tokens) -> bool` whose loop returns early
+      have hwf : Gen.PySrc._is_well_formed (.list (toks.map .str)) = .ok (.bool (Lic.structGo toks 0 .lp)) := by
+        unfold Gen.PySrc._is_well_formed
+        simp only [iterate_list, ok_bind]
+        refine loop1r (fun s d k => s.1 = none ∧ s.2.1 = .int d ∧ s.2.2 = .str (kstr k))
+          (fun s => s.1 = some (.bool false)) _ _ _ (.ok (.bool false)) ?hbad ?hf toks 0 .lp _ ⟨rfl, rfl, rfl⟩ ?hR
+        case hbad =>
+          intro s' hs'
+          simp only [hs', pure_ok]
+        case hf =>
+          intro t s d kd hrel
+          obtain ⟨v, dp, pv⟩ := s
+          obtain ⟨hv, hd, hp⟩ := hrel
+          simp only at hv hd hp
+          subst hv hd hp
+          by_cases h1 : t = [40]
+          · subst h1
+            cases kd <;> step_simp []
+          by_cases h2 : t = [41]
+          · subst h2
+            by_cases hd : d > 0
+            · have hd0 : d ≠ 0 := by omega
+              cases kd <;> step_simp [hd, hd0, sub_int] <;> omega
+            · have hd0 : d = 0 := by omega
+              subst hd0
+              cases kd <;> step_simp []
+          by_cases h3 : t = [111, 114] ∨ t = [97, 110, 100]
+          · cases kd <;> step_simp [h1, h2, h3]
+          by_cases h4 : t = [119, 105, 116, 104]
+          · cases kd <;> step_simp [h1, h2, h3, h4]
+          · cases kd <;> step_simp [h1, h2, h3, h4]
+        case hR =>
+          simp only [structGo_eq_end]
+          cases hE : structEnd toks 0 .lp with
           | none => simp
           | some r =>
+            obtain ⟨d', k'⟩ := r
             simp only
-            intro s' hs'
-            obtain ⟨a, b, c, n⟩ := s'
-            simp only at hs'
-            subst hs'
-            simp only [s_sp, s_lpsp, s_sprp, str_join_list, ok_bind, str_replace_two, join_sp, Option.map_some, Lic.tighten]
-        case hf2 =>
-          intro o t s acc hn
-          obtain ⟨a, b, c, n⟩ := s
-          simp only at hn
-          subst hn
-          simp only [pairVal, unpack2_tuple, ok_bind, contains_set_str, contains_tuple_str, contains_list_str, List.any_cons, List.any_nil, eq_str, Bool.or_false,
-            s_or, s_and, s_with, s_WITH, s_plus, s_ref, s_reflower, s_empty]
-          simp only [isGrammar_eq, normStep]
-          by_cases hg : Lic.isGrammar t = true
-          · simp only [hg, if_true, str_upper_str, list_append_list, ok_bind, upper_grammar hg]
-            exact ⟨_, rfl, by simp⟩
-          have hg' : Lic.isGrammar t = false := by simpa using hg
-          simp only [hg', Bool.false_eq_true, if_false]
-          rcases eq_nil_or_snoc acc with rfl | ⟨l, w, rfl⟩
-          · simp only [List.map_nil, truthy_list, List.isEmpty_nil, Bool.not_true, Bool.false_eq_true, if_false, ok_bind,
-              List.getLast?_nil]
-            word_split t o []
-          · simp only [getitem_last, truthy_list, List.isEmpty_map, snoc_isEmpty, Bool.and_false,
-              Bool.not_false, if_true, ok_bind, PyRt.eq, eq_str, truthy_bool, List.getLast?_append, List.getLast?_singleton,
-              Option.some_or]
-            by_cases hw : w = [87, 73, 84, 72]
-            · subst hw
-              cases hf : Lic.findId Gen.SpdxTables.exceptions t <;> word_simp [hf]
-            · word_split t o [hw]
+            intro s' hrel
+            obtain ⟨v, dp, pv⟩ := s'
+            obtain ⟨hv, hd, hp⟩ := hrel
+            simp only at hv hd hp
+            subst hv hd hp
+            cases k' <;> rcases d' with _ | d' <;>
+              simp [kstr, Lic.Kind.closes, PyRt.eq, contains_set_str, s_rp, s_license, s_exception] <;>
+              (have h0 : ¬ ((d' : Int) + 1 = 0) := by omega
+               simp [h0])
+      simp only [hwf, ok_bind, truthy_bool]
+      cases Lic.structGo toks 0 .lp with
+      | false => simp
+      | true =>
+        simp only [Bool.not_true, Bool.false_eq_true, if_false, zip2_strs, iterate_iter, ok_bind, pure_ok]
+        second_loop
 
 end Src
